@@ -200,6 +200,13 @@ def call (C : Crypto) (st : State) (ctx : Ctx) (func : String) (args : List Byte
     match args with
     | [] => if st.collector.isEmpty then .error .args else .ok { st := st, results := [st.collector] }
     | _ => .error .args
+  -- the protocol's `upgradeContract(code, metadata)` run by the owner: `upgrade()` is empty
+  | "upgradeContract" =>
+    if !notPayable ctx then .error .payment else
+    if ctx.caller != ctx.owner then .error .notCollectorOrOwner else
+    match args with
+    | [_, _] => .ok { st := st }
+    | _ => .error .args
   | _ => .error .args
 
 def initCall (args : List Bytes) : Except Err State :=
